@@ -48,3 +48,20 @@ _add(
     deciding={"any": {"readme_rows_checked": 15, "obligations": 590}},
     headline=["obligations", "readme_rows_checked", "in_situ_operator_calls"],
 )
+
+_add(
+    "C20",
+    shards=(4, 14),
+    timeout=(900, 5400),
+    title="date-time format constraints 931-935",
+    rule=(
+        "instants: ALL local midnights and 06:00s of 1996-2037 (complete positive set) each with +-1 s/+-1 min/+-1 h/random negatives; both DST "
+        "switch days of all 42 years at every quarter hour +-1 s; uniform random instants; each instant written in several notations (Z, +00:00, "
+        "-00:00, fixed and random offsets at minute and second resolution, T or space, optional .000) and judged by all five constraints against "
+        "an independent integer EU-DST calendar; robustness: hostile strings (range edges, naive, truncated, mutated, garbage) - never raise, "
+        "unfulfilled => message, fulfilled => justified by an aware parse + the calendar. distinct non-trivial = distinct instants "
+        "(positive, switch-day, random) plus distinct hostile strings judged fulfilled"
+    ),
+    deciding={"any": {"positive_instants": 30000, "switch_day_instants": 20000, "hostile_strings": 1000, "via_format_constraint_evaluation": 100}},
+    headline=["positive_instants", "switch_day_instants", "random_instants", "hostile_strings", "via_format_constraint_evaluation"],
+)
